@@ -1616,6 +1616,10 @@ pub struct Scenario {
     pub spec: Arc<BenchSpec>,
     pub cmds: Vec<Cmd>,
     pub label: String,
+    /// Another simulation that is run to completion (default schedule) and
+    /// dropped on the same thread before this one is built: simulations must
+    /// not interfere through state left on the thread.
+    pub prelude: Option<Arc<Scenario>>,
 }
 
 pub struct RunOut {
@@ -1632,6 +1636,9 @@ pub struct RunOut {
 
 /// Runs one scenario under one choice vector on the current thread.
 pub fn run_once(sc: &Scenario, prefix: &[u16], controlled: bool) -> RunOut {
+    if let Some(pre) = &sc.prelude {
+        let _ = run_once(pre, &[], controlled);
+    }
     let w = W::new(controlled);
     explore::install(prefix.to_vec());
     if controlled {
